@@ -111,6 +111,9 @@ type World struct {
 	subs     map[string][]*sub // by hash
 	// AutoDeliver: subscriptions fire as soon as the invoice is settled.
 	AutoDeliver bool
+	// InvoiceExpirySec: lifetime the node reports for the invoices it creates from now on (0 = 3600 s).
+	// Set under no concurrency (between operations).
+	InvoiceExpirySec uint64
 	delivered   map[string]bool
 	nsubs       int
 }
@@ -409,7 +412,11 @@ func (n *Node) CreateInvoice(amount uint64) (res lightning.Invoice, err error) {
 		if e != nil {
 			return e
 		}
-		res = lightning.Invoice{PaymentRequest: i.Bolt11, PaymentHash: i.Hash, Amount: amount, Expiry: 3600}
+		exp := n.W.InvoiceExpirySec
+		if exp == 0 {
+			exp = 3600
+		}
+		res = lightning.Invoice{PaymentRequest: i.Bolt11, PaymentHash: i.Hash, Amount: amount, Expiry: exp}
 		return nil
 	})
 	return
